@@ -69,6 +69,35 @@ func TestC18(t *testing.T) {
 			}
 		}
 		desc := fmt.Sprintf("%s %s terms=%q", sc, c.Desc, pairs)
+		// long lists (bulk deletes by id pass thousands of pairs): pad with repeats of the drawn pairs and
+		// with absent terms, before / after / around the drawn pairs
+		if rapid.IntRange(0, 4).Draw(t, "longList") == 0 {
+			total := rapid.SampledFrom([]int{64, 255, 256, 257, 300, 1000, 5000}).Draw(t, "listLen")
+			fill := rapid.IntRange(0, 2).Draw(t, "fillKind")
+			where := rapid.IntRange(0, 2).Draw(t, "fillWhere")
+			var pad []segment.Term
+			for i := 0; len(list)+len(pad) < total; i++ {
+				switch {
+				case fill == 0 && len(pairs) > 0, fill == 2 && len(pairs) > 0 && i%2 == 0:
+					pad = append(pad, pairs[i%len(pairs)])
+				default:
+					pad = append(pad, ftTerm{FieldVocab[i%len(FieldVocab)], fmt.Sprintf("absent-%d", i)})
+				}
+			}
+			switch where {
+			case 0:
+				list = append(list, pad...)
+			case 1:
+				list = append(pad, list...)
+			default:
+				list = append(append(append([]segment.Term{}, pad[:len(pad)/2]...), list...), pad[len(pad)/2:]...)
+			}
+			desc += fmt.Sprintf(" padded to %d entries (fill kind %d, position %d)", len(list), fill, where)
+			labels = append(labels, "long-list(>=64)")
+			if len(list) >= 256 {
+				labels = append(labels, "long-list(>=256)")
+			}
+		}
 		var got *roaring.Bitmap
 		err = safely("DocsMatchingTerms", func() error {
 			var e error
